@@ -32,25 +32,17 @@ EXPLANATION = ("exceptional-frame VCs of assemble(): on every exit the executor 
                "DuplicateModules, MissingModule) the citation cells and reference lists of every input equal the pre-state; "
                "fragments are fresh (slice contract: new containers); census of every mutation site of the package")
 
-# frame specification (pyvc/frames.py): per function, the parameters whose reachable state it may write freely
-# (`free`: the product under construction) and the shapes of the other escaping stores it may perform.  Local
-# rebinding and writes to fresh local containers are never store sites, names are abstracted to roles, constant
-# keys to K: renaming locals / parameters or writing one more key of the product cannot trip the census.
+# frame specification (pyvc/frames.py): the access paths through which _assembly.py and core/_utils.py may write to
+# anything that outlives a call.  Paths abstract parameters to `P`, expand local aliases, and are per file: renaming,
+# temporaries, extracted or inlined helpers, reordered statements or one more annotation key do not change them.
 FRAME_ASSEMBLY = {
-    "AssemblyManager.__init__": dict(),                                   # own attributes only
-    "AssemblyManager.assemble": dict(),
-    "AssemblyManager._save_citations": dict(),
-    "AssemblyManager._restore_citations": dict(shapes={"L.qualifiers[K][:]"}),     # the cells it must restore
-    "AssemblyManager._generate_modules_map": dict(),
-    "AssemblyManager._generate_assembly": dict(shapes={"call:P0.pop"}),            # the map built for this call
-    "AssemblyManager._deref_citations": dict(shapes={"L.qualifiers[K][L]"}),       # the cells CIT (modelled)
-    "AssemblyManager._ref_citations": dict(free={"P0"}),                           # P0 = the product
-    "AssemblyManager._annotate_assembly": dict(free={"P0"}),                       # P0 = the product
+    "P.features[*].qualifiers[K][*]",      # one entry of a citation list: _deref_citations (inputs, restored below), _ref_citations (product)
+    "P[*].qualifiers[K][:]",               # _restore_citations: the saved entries back into the same list object
+    "call:P.pop",                          # the overhang walk consumes the map built for this call
+    "call:P.annotations.setdefault", "call:P.annotations[K].append",   # reference list of the product
+    "P.id", "P.name", "P.annotations[K]",  # _annotate_assembly, on the product
 }
-FRAME_UTILS = {
-    "add_as_source": dict(shapes={"call:P1.features.append"}),                     # P1 = the fresh fragment (contract)
-    "cutter_check": dict(),
-}
+FRAME_UTILS = {"call:P.features.append"}   # add_as_source: on the destination record (a fresh fragment: contract)
 
 
 def obligations(ctx):
@@ -70,11 +62,11 @@ def census(ctx):
     from pyvc import frames
     out = []
     unlisted = []
-    for rel, spec in (("moclo/moclo/core/_assembly.py", FRAME_ASSEMBLY), ("moclo/moclo/core/_utils.py", FRAME_UTILS)):
+    for rel, shapes in (("moclo/moclo/core/_assembly.py", FRAME_ASSEMBLY), ("moclo/moclo/core/_utils.py", FRAME_UTILS)):
         mi = ctx.repo.modules.get(rel)
         if mi is None:
             continue
-        unlisted += frames.check_frame(mi, rel, spec)
+        unlisted += frames.check_frame(mi, rel, shapes)
     out.append(Obligation("C07.F1 census: every escaping store of _assembly.py and core/_utils.py is within the frame", [],
                           tm.B(not unlisted), kind="F", text="stores outside the frame: %s" % unlisted,
                           meta=dict(function="census", clause="F1", detail=unlisted)))
@@ -86,7 +78,7 @@ def census(ctx):
         mi = ctx.repo.modules.get(rel)
         if mi is None:
             continue
-        bad += frames.check_frame(mi, rel, {}, ignore_roots=("cls", "G:"))
+        bad += frames.check_frame(mi, rel, (), roots={"self", "P", "L", "?", "E", "FRESH"})
     out.append(Obligation("C07.F2 census: entity methods do not write to the wrapped record or to their arguments", [],
                           tm.B(not bad), kind="F", text="stores on inputs: %s" % bad,
                           meta=dict(function="census", clause="F2", detail=bad)))
